@@ -156,6 +156,21 @@ class ObjHolder:
     p: Optional[PreObj] = None
 
 
+class Rec:  # plain class whose registered fields make it recursive or not (recursion analysis is cached too)
+    def __init__(self, v=0, next=None):
+        self.v, self.next = v, next
+
+
+rec_fields_flat = [ObjectField("v", int, required=False, default=0)]
+rec_fields_rec = [ObjectField("v", int, required=False, default=0), ObjectField("next", Optional[Rec], required=False, default=None)]
+
+
+@dataclass
+class RecHolder:
+    r: Rec
+    rs: List[Rec] = field(default_factory=list)
+
+
 @dataclass
 class Named:
     x: int = 0
@@ -528,6 +543,7 @@ IMPLS = {
     "conv_to_str": conv_to_str, "convdc_from_int": convdc_from_int, "convdc_to_int": convdc_to_int, "pre_from_str": pre_from_str,
     "pre_from_int": pre_from_int, "pre_to_str": pre_to_str, "pre_to_int": pre_to_int,
     # object fields
+    "rec_fields_flat": rec_fields_flat, "rec_fields_rec": rec_fields_rec,
     "obj_fields_a": obj_fields_a, "obj_fields_ab": obj_fields_ab, "obj_fields_str": obj_fields_str, "obj_fields_factory": obj_fields_factory,
     # type names
     "tn_factory": tn_factory,
@@ -567,7 +583,7 @@ for _a in ERROR_ATTRS:
 
 TYPES = {
     "Conv": Conv, "ConvSub": ConvSub, "ConvHolder": ConvHolder, "ConvDC": ConvDC, "PreConv": PreConv, "PreConvHolder": PreConvHolder,
-    "Obj": Obj, "ObjDC": ObjDC, "PreObj": PreObj, "ObjHolder": ObjHolder,
+    "Obj": Obj, "ObjDC": ObjDC, "PreObj": PreObj, "ObjHolder": ObjHolder, "Rec": Rec, "RecHolder": RecHolder,
     "Named": Named, "NamedHolder": NamedHolder, "Cat": Cat, "Dog": Dog, "PetU": PetU,
     "Sch": Sch, "SchStr": SchStr, "SchDC": SchDC, "SchHolder": SchHolder,
     "Aliased": Aliased, "AliasedHolder": AliasedHolder,
@@ -590,6 +606,7 @@ DATA = {
     "PreConv": [1, "s"], "PreConvHolder": [{"p": 1, "ps": [2, "t"]}],
     "Obj": [{"a": 1}, {"a": "s", "c": 2}, {"b": "x"}, {}], "ObjDC": [{"a": 1}, {"a": 1, "b": "z"}, {"b": "only"}], "PreObj": [{"a": 1}, {}],
     "ObjHolder": [{"o": {"a": 1}, "d": {"a": 2}, "p": {"a": 3}}],
+    "Rec": [{"v": 1, "next": {"v": 2, "next": None}}, {"v": 1}], "RecHolder": [{"r": {"v": 1, "next": {"v": 2}}, "rs": [{"v": 3}]}],
     "Named": [{"x": 1}], "NamedHolder": [{"a": {"x": 1}, "b": {"x": 2}}], "Cat": [{"name": "tom"}],
     "PetU": [{"type": "Cat", "name": "tom"}, {"type": "Kitty", "name": "tom"}, {"type": "P_Cat"}, {"type": "F_Cat"}, {"type": "Dog"}],
     "Sch": [-1, 3, 7], "SchStr": ["a", "bcd", "abc"], "SchDC": [{"k": 1}, {}], "SchHolder": [{"s": -1, "l": [7, -2], "t": "b", "d": {}}],
@@ -620,6 +637,7 @@ VALUES = {
     "ConvDC": [lambda: ConvDC(3)], "PreConv": [lambda: PreConv(1)], "PreConvHolder": [lambda: PreConvHolder(PreConv(1), [PreConv(2)])],
     "Obj": [lambda: Obj(1, "x", 2)], "ObjDC": [lambda: ObjDC(1, "z")], "PreObj": [lambda: PreObj(1, "q")],
     "ObjHolder": [lambda: ObjHolder(Obj(1, "x", 2), ObjDC(2), PreObj(3))],
+    "Rec": [lambda: Rec(1, Rec(2))], "RecHolder": [lambda: RecHolder(Rec(1, Rec(2)), [Rec(3)])],
     "Named": [lambda: Named(1)], "NamedHolder": [lambda: NamedHolder(Named(1), Named(2))], "PetU": [lambda: Cat("tom"), lambda: Dog("rex")],
     "Sch": [lambda: 3], "SchHolder": [lambda: SchHolder(Sch(1), [Sch(2)])], "SchDC": [lambda: SchDC(1)],
     "Aliased": [_aliased], "AliasedHolder": [lambda: AliasedHolder(_aliased(), 2)],
@@ -677,6 +695,8 @@ def _ops():
         add(["ObjDC", "ObjHolder"], op="set_object_fields", target="ObjDC", impl=impl)
     for impl in ("obj_fields_a", None):
         add(["PreObj", "ObjHolder"], op="set_object_fields", target="PreObj", impl=impl)
+    for impl in ("rec_fields_flat", "rec_fields_rec", None):
+        add(["Rec", "RecHolder"], op="set_object_fields", target="Rec", impl=impl)
     # --- type names
     for target, types in (("Named", ["Named", "NamedHolder"]), ("Cat", ["PetU", "Cat"]), ("SubA", ["Base", "UnionSub", "BaseHolder"])):
         add(types, op="type_name", target=target, v={"Named": "Renamed", "Cat": "Kitty", "SubA": "a"}[target])
